@@ -50,8 +50,12 @@ Proof. apply map_app. Qed.
 (* y lies (non-strictly) between its neighbours u and v: a sample on a monotone segment or a repeated value *)
 Definition between (u y v : R) : Prop := (u <= y <= v) \/ (v <= y <= u).
 
+(* one inserted sample.  Side condition: the LAST sample of the sequence is not repeated -- on a trailing plateau the
+   implementation defers the last turning point to the second HCM run and the result changes (known finding
+   trailing-repeated-sample of C10, junction defect of C04); everywhere else repeated values are admitted. *)
 Inductive ins1 : list R -> list R -> Prop :=
-| ins1_intro l1 u y v l2 : between u y v -> ins1 (l1 ++ u :: v :: l2) (l1 ++ u :: y :: v :: l2).
+| ins1_intro l1 u y v l2 : between u y v -> (l2 = [] -> y <> v) ->
+    ins1 (l1 ++ u :: v :: l2) (l1 ++ u :: y :: v :: l2).
 
 (* s' is s with non-reversal samples inserted strictly inside (any number of times) *)
 Inductive refines : list R -> list R -> Prop :=
@@ -66,7 +70,7 @@ Qed.
 
 Lemma maxabs_ins1 s s' : ins1 s s' -> maxabs s' = maxabs s.
 Proof.
-  intros [l1 u y v l2 Hb]. rewrite !maxabs_app. f_equal. simpl.
+  intros [l1 u y v l2 Hb _]. rewrite !maxabs_app. f_equal. simpl.
   pose proof (between_abs _ _ _ Hb) as H. pose proof (maxabs_nonneg l2) as H0.
   unfold Rmax in *. repeat destruct (Rle_dec _ _); lra.
 Qed.
@@ -82,15 +86,18 @@ Proof.
     destruct Hb as [[H1 H2]|[H1 H2]]; [right|left]; split; apply Rmult_le_compat_neg_l; assumption.
 Qed.
 
-Lemma ins1_scale c s s' : ins1 s s' -> ins1 (scale c s) (scale c s').
+Lemma ins1_scale c s s' : c <> 0 -> ins1 s s' -> ins1 (scale c s) (scale c s').
 Proof.
-  intros [l1 u y v l2 Hb]. rewrite !scale_app. simpl. apply ins1_intro. now apply between_scale.
+  intros Hc [l1 u y v l2 Hb Hl]. rewrite !scale_app. simpl. apply ins1_intro; [now apply between_scale|].
+  intros Hnil Heq. apply Hl.
+  - unfold scale in Hnil. now apply map_eq_nil in Hnil.
+  - apply Rmult_eq_reg_l with c; assumption.
 Qed.
 
-Lemma refines_scale c s s' : refines s s' -> refines (scale c s) (scale c s').
+Lemma refines_scale c s s' : c <> 0 -> refines s s' -> refines (scale c s) (scale c s').
 Proof.
-  induction 1 as [|s s1 s2 H1 _ IH]; [apply refines_refl|].
-  eapply refines_step; [apply ins1_scale; exact H1|exact IH].
+  intros Hc. induction 1 as [|s s1 s2 H1 _ IH]; [apply refines_refl|].
+  eapply refines_step; [apply ins1_scale; [exact Hc|exact H1]|exact IH].
 Qed.
 
 (* ------------------------------------------------------------------ load safety factors (fkm_load_distribution.py) *)
@@ -302,11 +309,13 @@ Section Pipeline.
   Qed.
 
   (* non-reversal samples and repeated values do not change the result (P_RAM and P_RAJ) *)
-  Theorem refine_insensitive p s' : refines (pseq p) s' -> single (s', snd p) = single p.
+  Theorem refine_insensitive p s' : 0 < maxabs (pseq p) -> refines (pseq p) s' -> single (s', snd p) = single p.
   Proof.
-    intros Hr. unfold single, result_with, pZM, pZJ. unfold pseq in *. simpl fst. simpl snd. cbv zeta.
+    intros HM Hr. unfold single, result_with, pZM, pZJ. unfold pseq in *. simpl fst. simpl snd. cbv zeta.
     rewrite (maxabs_refines _ _ Hr).
-    assert (Hp : refines (prep (maxabs (fst p)) (fst p)) (prep (maxabs (fst p)) s')) by (apply refines_scale; exact Hr).
+    assert (Hp : refines (prep (maxabs (fst p)) (fst p)) (prep (maxabs (fst p)) s')).
+    { apply refines_scale; [|exact Hr]. destruct (gamma_ok 1 (maxabs (fst p)) (Rle_refl 1) HM) as [Hg _].
+      apply Rgt_not_eq. apply Rmult_lt_0_compat; assumption. }
     rewrite (maxabs_refines _ _ Hp). unfold resultM, damages. rewrite (struct_refines _ _ Hp). reflexivity.
   Qed.
 
